@@ -29,6 +29,75 @@ Import ListNotations.
 Open Scope Z_scope.
 """
 
+EXTRACT_V = """Require Import PL.C16.PyNum PL.C16.GenArithTable PL.C16.ModelEval PL.C16.IsoArith.
+From Coq Require Import ZArith QArith String.
+Require Extraction.
+Require ExtrOcamlBasic.
+Extraction "oracle.ml" is_m out_matches out_matches_exact spec_eval spec_agrees cmp_m outb_matches Z.add Z.mul Z.opp.
+"""
+
+# Unverified glue: parses one request per line (whitespace separated prefix notation) into the
+# extracted datatypes and prints 1/0.
+#   expr ::= i <int> | f <num> <den> | v | a0 <name> | a1 <name> expr | a2 <name> expr expr
+#   obs  ::= oi <int> | of <num> <den> | on | oa | or <T|O|Z|V> | oc | oo
+#   line ::= m expr obs | x expr obs | s expr obs | c <op> expr expr (t | f | e obs)
+DRIVER_ML = r"""
+open Oracle
+let ten = Zpos (XO (XI (XO XH)))
+let digit c = match c with
+  | '0' -> Z0 | '1' -> Zpos XH | '2' -> Zpos (XO XH) | '3' -> Zpos (XI XH) | '4' -> Zpos (XO (XO XH))
+  | '5' -> Zpos (XI (XO XH)) | '6' -> Zpos (XO (XI XH)) | '7' -> Zpos (XI (XI XH)) | '8' -> Zpos (XO (XO (XO XH)))
+  | '9' -> Zpos (XI (XO (XO XH))) | _ -> failwith "digit"
+let z_of_string (s : Stdlib.String.t) : z =
+  let neg = Stdlib.String.length s > 0 && s.[0] = '-' in
+  let acc = ref Z0 in
+  Stdlib.String.iteri (fun i c -> if i = 0 && c = '-' then () else acc := Z.add (Z.mul !acc ten) (digit c)) s;
+  if neg then Z.opp !acc else !acc
+let pos_of_string s = match z_of_string s with Zpos p -> p | _ -> failwith "positive expected"
+let ascii_of_char c =
+  let n = Char.code c in
+  let b i = (n lsr i) land 1 = 1 in
+  Ascii (b 0, b 1, b 2, b 3, b 4, b 5, b 6, b 7)
+let coq_string (s : Stdlib.String.t) : Oracle.string =
+  let r = ref EmptyString in
+  for i = Stdlib.String.length s - 1 downto 0 do r := String (ascii_of_char s.[i], !r) done; !r
+let toks = ref []
+let next () = match !toks with t :: r -> toks := r; t | [] -> failwith "eol"
+let rec expr () = match next () with
+  | "i" -> ENum (VInt (z_of_string (next ())))
+  | "f" -> let n = z_of_string (next ()) in let d = pos_of_string (next ()) in ENum (VFlt { qnum = n; qden = d })
+  | "v" -> EVar
+  | "a0" -> EApp0 (coq_string (next ()))
+  | "a1" -> let f = coq_string (next ()) in let a = expr () in EApp1 (f, a)
+  | "a2" -> let f = coq_string (next ()) in let a = expr () in let b = expr () in EApp2 (f, a, b)
+  | t -> failwith ("expr " ^ t)
+let obs () = match next () with
+  | "oi" -> ObInt (z_of_string (next ()))
+  | "of" -> let n = z_of_string (next ()) in let d = pos_of_string (next ()) in ObFlt { qnum = n; qden = d }
+  | "on" -> ObNonFinite | "oa" -> ObArithErr | "oc" -> ObCallMode | "oo" -> ObOther
+  | "or" -> ObRaw (match next () with "T" -> PyTypeError | "O" -> PyOverflowError | "Z" -> PyZeroDivisionError
+                                    | "V" -> PyValueError | t -> failwith ("exc " ^ t))
+  | t -> failwith ("obs " ^ t)
+let cmpop () = match next () with
+  | "lt" -> CLt | "gt" -> CGt | "le" -> CLe | "ge" -> CGe | "eq" -> CEq | "ne" -> CNe | t -> failwith ("op " ^ t)
+let () =
+  try
+    while true do
+      let line = input_line stdin in
+      toks := List.filter (fun t -> t <> "") (Stdlib.String.split_on_char ' ' line);
+      let r = match next () with
+        | "m" -> let e = expr () in out_matches (is_m e) (obs ())
+        | "x" -> let e = expr () in out_matches_exact (is_m e) (obs ())
+        | "s" -> let e = expr () in spec_agrees (spec_eval true e) (obs ())
+        | "c" -> let op = cmpop () in let a = expr () in let b = expr () in
+                 let o = (match next () with "t" -> ObTrue | "f" -> ObFalse | "e" -> ObBErr (obs ()) | t -> failwith ("obsb " ^ t)) in
+                 outb_matches (cmp_m op a b) o
+        | t -> failwith ("mode " ^ t) in
+      print_string (if r then "1\n" else "0\n")
+    done
+  with End_of_file -> ()
+"""
+
 INT_ONLY = {"/\\", "\\/", "xor", "#", "><", "<<", ">>", "\\"}
 CMP = {"<": "CLt", ">": "CGt", "=<": "CLe", ">=": "CGe", "=:=": "CEq", "=\\=": "CNe"}
 
@@ -79,6 +148,47 @@ def to_coq(e):
     if n > 2 or e[0] != "app":
         raise ValueError("expression outside the model: %r" % (e,))
     return "(EApp%d %s%s)" % (n, vf.coq_string(e[1]), "".join(" " + to_coq(a) for a in e[2]))
+
+
+def to_tok(e):
+    if e[0] == "int":
+        return "i %d" % e[1]
+    if e[0] == "flt":
+        from problog.logic import Constant
+        n, d = Constant(e[1]).functor.as_integer_ratio()
+        return "f %d %d" % (n, d)
+    if e[0] == "var":
+        return "v"
+    n = len(e[2])
+    if n > 2 or e[0] != "app" or " " in e[1] or not e[1]:
+        raise ValueError("expression outside the model: %r" % (e,))
+    return "a%d %s%s" % (n, e[1], "".join(" " + to_tok(a) for a in e[2]))
+
+
+def obs_tok(o):
+    if o[0] == "int":
+        return "oi %d" % o[1]
+    if o[0] == "flt":
+        return "of %d %d" % (o[1], o[2])
+    if o[0] == "raw":
+        return "or " + {"TypeError": "T", "OverflowError": "O", "ZeroDivisionError": "Z", "ValueError": "V"}[o[1]]
+    return {"nonfinite": "on", "arith": "oa", "callmode": "oc"}.get(o[0], "oo")
+
+
+def obsb_tok(o):
+    return {"true": "t", "false": "f"}.get(o[0]) or "e " + obs_tok(o[1])
+
+
+CMP_TOK = {"<": "lt", ">": "gt", "=<": "le", ">=": "ge", "=:=": "eq", "=\\=": "ne"}
+
+
+def ask(ctx, lines):
+    """Indices of the request lines the extracted model answers 0 to."""
+    if not lines:
+        return []
+    exe = ctx.ocaml_oracle("c16", EXTRACT_V, DRIVER_ML)
+    out = ctx.oracle(exe, lines)
+    return [i for i, r in enumerate(out) if r.strip() != "1"]
 
 
 def show(e):
@@ -226,7 +336,7 @@ def grid_cases(ctx, info):
                 for b in SMALL:
                     cases.append((A(name, I(a), I(b)), "int2"))
             # large operands: only where no float can be produced / needed
-            if (name, ar) not in info["opaque"] and name not in ("/", "**", "^", "<<"):
+            if (name, ar) not in info["opaque"] and name not in ("/", "**", "^", "<<", ">>"):
                 for a in LARGE:
                     for b in [-3, -1, 1, 2, 7, 2 ** 31, -(2 ** 63)]:
                         cases.append((A(name, I(a), I(b)), "large2"))
@@ -255,31 +365,70 @@ def grid_cases(ctx, info):
 
 BIN_INT = ["+", "-", "*", "//", "mod", "rem", "div", "min", "max", "/\\", "\\/", "xor", "#", "><", "<<", ">>", "^", "**"]
 UN_INT = ["-", "+", "\\", "abs", "sign", "integer", "truncate", "floor", "ceiling", "round"]
-BIN_ANY = ["+", "-", "*", "/", "//", "mod", "min", "max"]
-UN_ANY = ["-", "abs", "sign", "float", "integer", "floor", "ceiling", "round", "truncate",
-          "float_integer_part", "float_fractional_part", "sqrt", "exp", "sin", "atan"]
+# exact on dyadic operands (results stay representable for the leaf ranges used below)
+BIN_EXACT = ["+", "-", "*", "//", "mod", "rem", "div", "min", "max"]
+UN_EXACT = ["-", "+", "abs", "sign", "float", "integer", "floor", "ceiling", "round", "truncate",
+            "float_integer_part", "float_fractional_part"]
+BIN_CONT = ["/", "+", "-", "*", "**", "^", "exp", "atan", "atan2"]
+UN_CONT = ["sqrt", "exp", "log", "sin", "cos", "atan", "float", "-", "sinh", "erf", "lgamma"]
+RFLOATS = [0.0, 0.5, -0.5, 1.5, -1.5, 2.5, -2.5, 3.5, 2.25, -2.75, 3.0, -4.0]
+
+
+def rand_int_expr(rng, d):
+    if d == 0 or rng.random() < 0.25:
+        if rng.random() < 0.1:
+            return I(rng.choice(LARGE) + rng.randrange(-2, 3))
+        return I(rng.randrange(-12, 13))
+    if rng.random() < 0.8:
+        f = rng.choice(BIN_INT)
+        a = rand_int_expr(rng, d - 1)
+        b = rand_int_expr(rng, d - 1)
+        if f in ("<<", ">>", "^", "**"):
+            b = I(rng.randrange(0, 6))     # modest sizes; negative counts / exponents are in the grid
+        return A(f, a, b)
+    return A(rng.choice(UN_INT), rand_int_expr(rng, d - 1))
+
+
+def rand_exact_expr(rng, d):
+    """ints -6..6 and dyadic floats, operators whose float results are exact: depth <= 3."""
+    if d == 0 or rng.random() < 0.25:
+        return I(rng.randrange(-6, 7)) if rng.random() < 0.55 else F(rng.choice(RFLOATS))
+    if rng.random() < 0.7:
+        return A(rng.choice(BIN_EXACT), rand_exact_expr(rng, d - 1), rand_exact_expr(rng, d - 1))
+    return A(rng.choice(UN_EXACT), rand_exact_expr(rng, d - 1))
+
+
+def rand_cont_expr(rng):
+    """one inexact (rounded / libm) operation on top of exact operands"""
+    if rng.random() < 0.7:
+        return A(rng.choice(BIN_CONT), rand_exact_expr(rng, rng.choice([0, 1])), rand_exact_expr(rng, rng.choice([0, 1])))
+    return A(rng.choice(UN_CONT), rand_exact_expr(rng, rng.choice([0, 1])))
 
 
 def rand_expr(rng, d, ints_only):
-    if d == 0 or rng.random() < 0.25:
-        k = rng.random()
-        if ints_only or k < 0.7:
-            if rng.random() < 0.1:
-                return I(rng.choice(LARGE) + rng.randrange(-2, 3))
-            return I(rng.randrange(-12, 13))
-        return F(rng.choice(FLOATS))
-    if ints_only:
-        if rng.random() < 0.8:
-            f = rng.choice(BIN_INT)
-            a = rand_expr(rng, d - 1, True)
-            b = rand_expr(rng, d - 1, True)
-            if f in ("<<", "^", "**"):
-                b = I(rng.randrange(-1, 6))     # keep results of modest size
-            return A(f, a, b)
-        return A(rng.choice(UN_INT), rand_expr(rng, d - 1, True))
-    if rng.random() < 0.7:
-        return A(rng.choice(BIN_ANY), rand_expr(rng, d - 1, False), rand_expr(rng, d - 1, False))
-    return A(rng.choice(UN_ANY), rand_expr(rng, d - 1, False))
+    return rand_int_expr(rng, d) if ints_only else rand_exact_expr(rng, min(d, 3))
+
+
+def small_leaves(e):
+    return all(s[0] != "int" or abs(s[1]) < 2 ** 40 for s in subterms(e))
+
+
+def coq_safe(e):
+    """Coq computes 2^count literally: keep shift counts / exponents (as the implementation
+    evaluates them) small, and every intermediate integer below 2^8192."""
+    for s in subterms(e):
+        if s[0] == "int" and abs(s[1]) >= 2 ** 8192:
+            return False
+        if s[0] == "app" and len(s[2]) == 2 and s[1].strip("'") in ("<<", ">>", "^", "**", "exp"):
+            b = s[2][1]
+            o = ("int", b[1]) if b[0] == "int" else ("flt",) if b[0] == "flt" else observe_is(b)
+            if o[0] == "int" and abs(o[1]) > 128:
+                return False
+        if s[0] == "app" and s[2]:
+            o = observe_is(s)
+            if o[0] == "int" and abs(o[1]) >= 2 ** 8192:
+                return False
+    return True
 
 
 # ------------------------------------------------------------------ shrinking / classification
@@ -344,23 +493,39 @@ def spec_expected(e):
 
 
 # ------------------------------------------------------------------ the arithmetic tie
+def report(ctx, seen, klass, what, replay):
+    """One violation per class (plus every unclassified one, up to a cap); the rest is counted."""
+    ctx.count("violating:" + str(klass))
+    n = seen.get(klass, 0)
+    seen[klass] = n + 1
+    if (klass is not None and n == 0) or (klass is None and n < 10):
+        ctx.violation(what, replay, klass=klass)
+
+
 def run_arith(ctx, info):
     rng = ctx.rng
     cases = grid_cases(ctx, info)
-    n_rand = ctx.n(2500, 90000)
+    n_rand = ctx.n(4000, 120000)
     for k in range(n_rand):
-        ints_only = rng.random() < 0.6
-        cases.append((rand_expr(rng, rng.choice([1, 2, 2, 3, 3, 4]), ints_only), "rand_int" if ints_only else "rand_mixed"))
-    seen = set()
-    uniq = []
+        r = rng.random()
+        if r < 0.55:
+            cases.append((rand_int_expr(rng, rng.choice([1, 2, 2, 3, 3, 4])), "rand_int"))
+        elif r < 0.85:
+            cases.append((rand_exact_expr(rng, rng.choice([1, 2, 2, 3])), "rand_exact"))
+        else:
+            cases.append((rand_cont_expr(rng), "rand_cont"))
+    uniq, dedup = [], set()
     for e, fam in cases:
-        if e not in seen:
-            seen.add(e)
+        if e not in dedup:
+            dedup.add(e)
             uniq.append((e, fam))
     cases = uniq
-    model_terms, spec_terms, metas = [], [], []
-    raw_seen = {}
+    model_lines, spec_lines, metas = [], [], []
+    seen = {}
     for e, fam in cases:
+        if not coq_safe(e):
+            ctx.count("skipped:shift count / exponent / intermediate too large for the model")
+            continue
         o = observe_is(e)
         ctx.count("is:" + fam)
         ctx.count("obs:" + (o[0] if o[0] != "raw" else "raw:" + o[1]))
@@ -374,26 +539,24 @@ def run_arith(ctx, info):
                 if co == o:
                     w, wo = c, co
                     break
-            key = (w, wo)
-            if key not in raw_seen:
-                raw_seen[key] = True
-                what = ("X is %s raises Python %s (not a ProbLogError)" % (show(w), wo[1]) if wo[0] == "raw"
-                        else "X is %s gives %s" % (show(w), wo[1]))
-                ctx.violation(what, {"goal": "X is " + show(w), "expr": w, "observed": list(wo), "from": show(e),
-                                     "expected": "a number or a ProbLogError (SWI: type_error / evaluation_error)"},
-                              klass=classify_raw(w, wo))
+            what = ("X is %s raises Python %s (not a ProbLogError)" % (show(w), wo[1]) if wo[0] == "raw"
+                    else "X is %s gives %s" % (show(w), wo[1]))
+            report(ctx, seen, classify_raw(w, wo), what,
+                   {"goal": "X is " + show(w), "expr": w, "observed": list(wo), "from": show(e),
+                    "expected": "a number or a ProbLogError (SWI: type_error / evaluation_error)"})
             if o[0] == "other":
                 continue     # outside the model's observation type (reported above)
-        exact = depth(e) <= 2 and fam in ("int1", "flt1", "int2", "flt2", "mixed2", "const") and e[0] == "app" and e[1] not in ("/", "**", "^")
-        model_terms.append("%s (is_m %s) %s" % ("out_matches_exact" if exact else "out_matches", to_coq(e), obs_coq(o)))
-        spec_terms.append("spec_agrees (spec_eval true %s) %s" % (to_coq(e), obs_coq(o)))
+        exact = fam in ("int1", "flt1", "int2", "flt2", "mixed2", "rand_exact", "rand_int", "large2", "shiftpow") \
+            and small_leaves(e) and not any(s[0] == "app" and s[1].strip("'") in ("/", "**", "^", "epsilon", "pi", "e") for s in subterms(e))
+        model_lines.append("%s %s %s" % ("x" if exact else "m", to_tok(e), obs_tok(o)))
+        spec_lines.append("s %s %s" % (to_tok(e), obs_tok(o)))
         metas.append((e, o, fam))
-    ctx.log("arith: %d cases observed; evaluating model and ISO reference in Coq" % len(metas))
+    ctx.log("arith: %d goals observed; running the extracted model and ISO reference" % len(metas))
     try:
-        bad_model = ctx.coq_failing(HEADER, model_terms, name="arith_model")
-        bad_spec = ctx.coq_failing(HEADER, spec_terms, name="arith_spec")
+        bad_model = ask(ctx, model_lines)
+        bad_spec = ask(ctx, spec_lines)
     except RuntimeError as ex:
-        ctx.broken.append("correspondence:C16 arithmetic model does not evaluate")
+        ctx.broken.append("correspondence:C16 extracted arithmetic model does not build / run")
         ctx.notes.append(str(ex))
         return
     ctx.cov["arith_model_vs_engine_agree"] = len(metas) - len(bad_model)
@@ -401,43 +564,41 @@ def run_arith(ctx, info):
     for i in bad_model[:8]:
         e, o, fam = metas[i]
         ctx.broken.append("correspondence:GenArithTable/ModelEval vs engine on X is %s (observed %r)" % (show(e), o))
+    if len(bad_model) > 8:
+        ctx.broken.append("correspondence: ... and %d more arithmetic goals" % (len(bad_model) - 8))
     # property-level judge, part 2: the ISO reference
-    reported = {}
-    shr_terms, shr_meta = [], []
+    shr_lines, shr_meta = [], []
     for i in bad_spec:
         e, o, fam = metas[i]
         for c in shrink_candidates(e):
             co = o if c == e else observe_is(c)
             if co[0] == "other":
                 continue
-            shr_terms.append("spec_agrees (spec_eval true %s) %s" % (to_coq(c), obs_coq(co)))
+            shr_lines.append("s %s %s" % (to_tok(c), obs_tok(co)))
             shr_meta.append((i, c, co))
-    if shr_terms:
-        try:
-            bad_shr = set(ctx.coq_failing(HEADER, shr_terms, name="arith_shrink"))
-        except RuntimeError as ex:
-            ctx.broken.append("correspondence:C16 shrink cases do not evaluate")
-            ctx.notes.append(str(ex))
-            bad_shr = set()
-        first = {}
-        for j, (i, c, co) in enumerate(shr_meta):
-            if j in bad_shr and i not in first:
-                first[i] = (c, co)
-        for i in bad_spec:
-            e, o, fam = metas[i]
-            w, wo = first.get(i, (e, o))
-            if (w, wo) in reported:
-                continue
-            reported[(w, wo)] = True
-            ctx.count("spec_violation_witnesses")
-            ctx.violation("X is %s gives %s; ISO/SWI/YAP give %s" % (show(w), wo[1] if len(wo) > 1 else wo[0], spec_expected(w)),
-                          {"goal": "X is " + show(w), "expr": w, "observed": list(wo), "expected": spec_expected(w), "from": show(e)},
-                          klass=classify_spec(w, wo))
-    ctx.cov["arith_spec_violating_cases"] = len(bad_spec)
+    bad_shr = set(ask(ctx, shr_lines))
+    first = {}
+    for j, (i, c, co) in enumerate(shr_meta):
+        if j in bad_shr and i not in first:
+            first[i] = (c, co)
+    done = set()
+    for i in bad_spec:
+        e, o, fam = metas[i]
+        w, wo = first.get(i, (e, o))
+        if (w, wo) in done:
+            continue
+        done.add((w, wo))
+        report(ctx, seen, classify_spec(w, wo),
+               "X is %s gives %s; ISO/SWI/YAP give %s" % (show(w), wo[1] if len(wo) > 1 else wo[0], spec_expected(w)),
+               {"goal": "X is " + show(w), "expr": w, "observed": list(wo), "expected": spec_expected(w), "from": show(e)})
+    ctx.cov["arith_spec_violating_goals"] = len(bad_spec)
+    ctx.cov["arith_spec_distinct_minimal_witnesses"] = len(done)
+    ctx._c16_seen = seen
 
 
 def run_cmp(ctx):
     rng = ctx.rng
+    seen = getattr(ctx, "_c16_seen", {})
     vals = [I(a) for a in (-3, -1, 0, 1, 2, 2 ** 64)] + [F(x) for x in (-1.5, 0.0, 1.0, 2.0, 2.5)]
     cases = []
     for op in CMP:
@@ -445,37 +606,38 @@ def run_cmp(ctx):
             for b in vals:
                 cases.append((op, a, b))
         cases += [(op, A("//", I(1), I(0)), I(1)), (op, I(1), A("foo")), (op, VAR, I(1)), (op, I(1), A("+", VAR, I(1))),
-                  (op, A("/\\", F(1.5), I(1)), A("//", I(1), I(0))), (op, A("nan"), I(1)), (op, A("inf"), A("inf"))]
-    for k in range(ctx.n(600, 20000)):
-        cases.append((rng.choice(list(CMP)), rand_expr(rng, rng.choice([1, 2, 3]), rng.random() < 0.5),
-                      rand_expr(rng, rng.choice([0, 1, 2]), rng.random() < 0.5)))
-    terms, metas = [], []
+                  (op, A("/\\", F(1.5), I(1)), A("//", I(1), I(0))), (op, A("nan"), I(1)), (op, A("inf"), A("inf")),
+                  (op, A("//", I(-7), I(2)), I(-3))]
+    for k in range(ctx.n(1500, 40000)):
+        io = rng.random() < 0.5
+        cases.append((rng.choice(list(CMP)), rand_expr(rng, rng.choice([1, 2, 3]), io), rand_expr(rng, rng.choice([0, 1, 2]), io)))
+    lines, metas = [], []
     for op, a, b in cases:
+        if not (coq_safe(a) and coq_safe(b)):
+            continue
         o = observe_cmp(op, a, b)
         ctx.count("cmp:" + op)
         ctx.case(("cmp", op, a, b), True, sample={"goal": "%s %s %s" % (show(a), op, show(b)), "observed": list(o)})
         if o[0] == "err" and o[1][0] in ("raw", "other"):
             kl = None
-            if o[1] == ("raw", "TypeError") or o[1] == ("raw", "OverflowError"):
-                # same escape as in is/2: find the operand that raises
-                for side in (a, b):
-                    so = observe_is(side)
-                    if so == o[1]:
-                        for c in shrink_candidates(side):
-                            if observe_is(c) == so:
-                                kl = classify_raw(c, so)
-                                break
-                        break
-            ctx.violation("%s %s %s raises Python %s (not a ProbLogError)" % (show(a), op, show(b), o[1][1]),
-                          {"goal": "%s %s %s" % (show(a), op, show(b)), "observed": list(o[1])}, klass=kl)
+            for side in (a, b):
+                so = observe_is(side)
+                if so == o[1]:
+                    for c in shrink_candidates(side):
+                        if observe_is(c) == so:
+                            kl = classify_raw(c, so)
+                            break
+                    break
+            report(ctx, seen, kl, "%s %s %s raises Python %s (not a ProbLogError)" % (show(a), op, show(b), o[1][1]),
+                   {"goal": "%s %s %s" % (show(a), op, show(b)), "observed": list(o[1])})
             if o[1][0] == "other":
                 continue
-        terms.append("outb_matches (cmp_m %s %s %s) %s" % (CMP[op], to_coq(a), to_coq(b), obsb_coq(o)))
+        lines.append("c %s %s %s %s" % (CMP_TOK[op], to_tok(a), to_tok(b), obsb_tok(o)))
         metas.append((op, a, b, o))
     try:
-        bad = ctx.coq_failing(HEADER, terms, name="cmp_model")
+        bad = ask(ctx, lines)
     except RuntimeError as ex:
-        ctx.broken.append("correspondence:C16 comparison model does not evaluate")
+        ctx.broken.append("correspondence:C16 extracted comparison model does not run")
         ctx.notes.append(str(ex))
         return
     ctx.cov["cmp_model_vs_engine_agree"] = len(metas) - len(bad)
@@ -486,21 +648,22 @@ def run_cmp(ctx):
 
 def run_probes(ctx):
     """Targeted probes for deviations the grids cannot express in the model."""
+    seen = getattr(ctx, "_c16_seen", {})
     # strings as operands
     for e in [A("+", ("str", "abc"), I(1)), A("*", F(1.5), ("str", "a")), A("-", ("str", "a"))]:
         o = observe_is(e)
         ctx.case(("probe", e), True)
         if o[0] in ("raw", "other"):
-            ctx.violation("X is %s raises Python %s (not a ProbLogError)" % (show(e), o[1]),
-                          {"goal": "X is " + show(e), "observed": list(o)}, klass=classify_raw(e, o))
+            report(ctx, seen, classify_raw(e, o), "X is %s raises Python %s (not a ProbLogError)" % (show(e), o[1]),
+                   {"goal": "X is " + show(e), "observed": list(o)})
     # Constant() rounds every float result to 15 decimals
     for e, exact in [(A("epsilon"), Fraction(1, 2 ** 52)), (A("**", I(2), I(-60)), Fraction(1, 2 ** 60))]:
         o = observe_is(e)
         ctx.case(("probe", e), True)
         if o[0] == "flt" and Fraction(o[1], o[2]) == 0:
-            ctx.violation("X is %s gives 0.0 (exact value %s): is/2 results are rounded to 15 decimals by Constant()" % (show(e), float(exact)),
-                          {"goal": "X is " + show(e), "observed": list(o), "expected": float(exact)},
-                          klass="is-float-result-rounded-to-15-decimals")
+            report(ctx, seen, "is-float-result-rounded-to-15-decimals",
+                   "X is %s gives 0.0 (exact value %s): is/2 results are rounded to 15 decimals by Constant()" % (show(e), float(exact)),
+                   {"goal": "X is " + show(e), "observed": list(o), "expected": float(exact)})
     # recorded only (references disagree or the difference is the result type, DESIGN 6.4)
     rec = {}
     for e in [A("/", I(4), I(2)), A("**", I(2), I(3)), A("**", I(2), I(-1)), A("^", I(2), I(-1)), A("integer", F(2.5)),
@@ -520,6 +683,10 @@ def compile_findings(ctx):
 
 
 def generate(ctx):
+    import c16_modes
+    mtext, modes = c16_modes.translate(vf.REPO)
+    ctx.generate("C16/GenModes.v", mtext)
+    ctx.cov["mode_tables"] = modes
     text, info = c16_arith.translate(vf.REPO)
     ctx.generate("C16/GenArithTable.v", text)
     ctx._c16_info = info
